@@ -908,7 +908,7 @@ for _li in range(3):
 # ----------------------------------------------------------------------------
 # bounded: real crystals through the real class
 
-def _family(tier, seed, gens, name):
+def _family(tier, seed, gens, name, shard=None):
     import hashlib
     import os
     from pyvc.native import atomman
@@ -916,6 +916,8 @@ def _family(tier, seed, gens, name):
     am = atomman()
     cases = fam.thorough_cases() if tier == 'thorough' else fam.quick_cases()
     cases = [c for c in cases if c['gen'] in gens]
+    if shard is not None:
+        cases = cases[shard[0]::shard[1]]
     fails, samples = [], []
     evals = nontriv = refused = 0
     seen = set()
@@ -947,18 +949,26 @@ _RULE = ('crystals {fcc, bcc, hcp (Miller-Bravais), B2} x slip systems {edge, sc
          'oracles: lattice membership in the unit-cell frame, independent region tests, brute-force distances, own disregistry evaluation; distinct by case key; non-trivial = not refused')
 
 
-@group('monopole.family', kind='bounded', files=[DINIT, MONO, DISR, CYL, PSET, PLANE, SYSF], functions=['Dislocation.__init__', 'Dislocation.monopole', 'defect.disregistry'],
-       clause='real crystals: the rotated cell is the crystal in the solution frame with integer vectors (line vector along the line, two vectors in the slip plane), every offered shift puts '
+def _register_families():
+    specs = [('monopole.family', ('monopole',), [DINIT, MONO, DISR, CYL, PSET, PLANE, SYSF], ['Dislocation.__init__', 'Dislocation.monopole', 'defect.disregistry'],
+              'real crystals: the rotated cell is the crystal in the solution frame with integer vectors (line vector along the line, two vectors in the slip plane), every offered shift puts '
               'the slip plane midway between atomic planes, the monopole reference system is the symmetric supercell of the rotated crystal moved by the requested shift, every atom is '
               'displaced by the solution at its reference position minus the centre, periodic along the line only, boundary atoms are exactly those outside the stated region, and the '
-              'disregistry (agreeing with an independent evaluation) accumulates to one Burgers vector up to the 1/x tail', rule=_RULE)
-def monopole_family(tier, seed):
-    return _family(tier, seed, ('monopole',), 'monopole.family')
-
-
-@group('periodicarray.family', kind='bounded', files=[DINIT, PARR, DISR, PSET, PLANE, SYSF], functions=['Dislocation.periodicarray', 'Dislocation.build_disl_array', 'defect.disregistry'],
-       clause='real crystals: the periodic array removes exactly N b_edge / (2 L) atoms, tilts the in-plane cell vector by b/2, has no overlapping atoms under its two in-plane periodic '
+              'disregistry (agreeing with an independent evaluation) accumulates to one Burgers vector up to the 1/x tail'),
+             ('periodicarray.family', ('periodicarray',), [DINIT, PARR, DISR, PSET, PLANE, SYSF], ['Dislocation.periodicarray', 'Dislocation.build_disl_array', 'defect.disregistry'],
+              'real crystals: the periodic array removes exactly N b_edge / (2 L) atoms, tilts the in-plane cell vector by b/2, has no overlapping atoms under its two in-plane periodic '
               'directions, maps every atom through old_id to its atom of the shifted perfect crystal displaced by the documented (linear / blended) field, re-types the surface region, and '
-              'its disregistry accumulates to one Burgers vector per period', rule=_RULE)
-def periodicarray_family(tier, seed):
-    return _family(tier, seed, ('periodicarray',), 'periodicarray.family')
+              'its disregistry accumulates to one Burgers vector per period')]
+    nshard = 8
+    for name, gens, files, functions, clause in specs:
+        def mk(name=name, gens=gens, shard=None):
+            def fn(tier, seed):
+                return _family(tier, seed, gens, name, shard)
+            return fn
+        group(name, kind='bounded', files=files, functions=functions, clause=clause, rule=_RULE, tiers=('quick',))(mk())
+        for k in range(nshard):
+            group('T:%s[%d/%d]' % (name, k, nshard), kind='bounded', files=files, functions=functions, clause=clause, rule=_RULE + '; thorough tier, shard %d of %d' % (k, nshard),
+                  tiers=('thorough',))(mk(shard=(k, nshard)))
+
+
+_register_families()
